@@ -1,0 +1,32 @@
+//go:build verif
+
+package content
+
+// Contracts for contentFor / contentOf (C17, C01, C05, C09), checked by /verif/bin/plushvc.
+// Comment-only.
+
+// contentFor: stores the block as a closure under "contentFor:"+name; emits nothing.
+//@ func ContentFor
+//@ requires help != nil
+//@ assigns mapsof("map[string]interface{}"), fresh
+
+// the stored closure: renders the block once in a fresh child scope extended with data
+//@ func ContentFor$1
+//@ requires help != nil
+//@ ensures fail: err != nil ==> result == ""
+//@ errprop
+//@ assigns mapsof("map[string]interface{}"), fresh
+//@ loop 1: invariant hctx != nil && help != nil
+
+//@ func ContentOf
+//@ requires help != nil
+//@ ensures fail: err != nil ==> result == ""
+//@ errprop
+//@ assigns mapsof("map[string]interface{}"), fresh
+//@ loop 1: invariant hc != nil && help != nil
+
+// the func type under which contentFor stores its closure (contract shared by all such values)
+//@ functype content.storedBlock(f, data) r, err
+//@ sig func(data hctx.Map) (template.HTML, error)
+//@ ensures err != nil ==> r == ""
+//@ assigns mapsof("map[string]interface{}"), fresh
